@@ -68,6 +68,51 @@ func Serve(h http.Handler, r *http.Request) (res Result) {
 
 // Request builds a server-side request by hand so that any byte sequence can
 // be a path. body may be nil. contentLength: -1 unknown, 0 none.
+// RequestTarget is Request for a request-target exactly as a client spelled it
+// (percent-encoding included): the URL is parsed the way net/http parses the
+// request line, so URL.Path is the decoded form and URL.RawPath is set whenever
+// the spelling is not the canonical one. ok is false if the target does not parse.
+func RequestTarget(method, rawTarget, rawQuery string, hdr http.Header, body io.Reader, contentLength int64) (r *http.Request, ok bool) {
+	u, err := url.ParseRequestURI(rawTarget)
+	if err != nil {
+		return nil, false
+	}
+	u.RawQuery = rawQuery
+	r = Request(method, u.Path, rawQuery, hdr, body, contentLength)
+	r.URL = u
+	r.RequestURI = rawTarget
+	if rawQuery != "" {
+		r.RequestURI += "?" + rawQuery
+	}
+	return r, true
+}
+
+// Spell re-encodes the decoded path p byte by byte: choice(i) = 0 leaves the
+// canonical spelling, 1 percent-encodes the byte with upper-case hex (even if it
+// needs no encoding), 2 with lower-case hex. '/' is never encoded.
+func Spell(p string, choice func(i int) int) string {
+	const upper, lower = "0123456789ABCDEF", "0123456789abcdef"
+	var sb []byte
+	for i := 0; i < len(p); i++ {
+		b := p[i]
+		ch := choice(i)
+		if b == '/' {
+			sb = append(sb, b)
+			continue
+		}
+		canonicalRaw := b >= 'a' && b <= 'z' || b >= 'A' && b <= 'Z' || b >= '0' && b <= '9' || strings.IndexByte("-._~$&+,:;=@!'()*", b) >= 0
+		switch {
+		case ch == 2:
+			sb = append(sb, '%', lower[b>>4], lower[b&15])
+		case ch == 1 || !canonicalRaw:
+			sb = append(sb, '%', upper[b>>4], upper[b&15])
+		default:
+			sb = append(sb, b)
+		}
+	}
+	return string(sb)
+}
+
 func Request(method, path, rawQuery string, hdr http.Header, body io.Reader, contentLength int64) *http.Request {
 	if hdr == nil {
 		hdr = http.Header{}
